@@ -342,11 +342,12 @@ def run(repo, chk):
                 if any(gpp.path_exists(s0, h, avoid=marks, labels=("n", "t", "f")) for h in loop_heads) or gpp.path_exists(s0, gpp.exit, avoid=marks, labels=("n", "t", "f")):
                     return False
         return True
-    chk.ob("R15.3", "opparse.Parser.process:positive-opens", under(f"{ordv} > 0", "stack.append(current)", "right = _next()"),
+    tokp = pr.node.args.args[1].arg
+    chk.ob("R15.3", "opparse.Parser.process:positive-opens", under(f"{ordv} > 0", "stack.append(current)", f"right = {tokp}.pop() if {tokp} else None"),
            pr.where, "a positive order opens a new handle and advances")
     chk.ob("R15.3", "opparse.Parser.process:negative-closes", under(f"{ordv} < 0", "middle = self.finalize(current)", "current = stack.pop()"),
            pr.where, "a negative order closes the current handle")
-    chk.ob("R15.3", "opparse.Parser.process:zero-merges", under(f"{ordv} == 0", "current.append(middle)", "current.append(right)", "right = _next()"),
+    chk.ob("R15.3", "opparse.Parser.process:zero-merges", under(f"{ordv} == 0", "current.append(middle)", "current.append(right)", f"right = {tokp}.pop() if {tokp} else None"),
            pr.where, "a zero order merges into the current handle (brackets)")
 
     # ---------------- R15.4
@@ -472,6 +473,8 @@ def run(repo, chk):
            f"every operand is evaluated in the context of the whole expression, only the argument list of a call is 'incall' ({ctx_n} operand evaluations): "
            "`a > f() as r` focuses #value exactly like `f() as r` does at the root (= `a(f(!#value as r))`)" + (f" -- {ctx_bad}" if ctx_bad else ""))
     mf = repo.func("selector.make_focus")
+    from .shared import call_extension_obligations
+    call_extension_obligations(repo, chk, "R15.4")      # `f(g(y)) > h > x` and `f(g(y), h(!x))` are one selector: `>` appends to the calls already in the parentheses
     chk.ob("R15.5", "selector.make_focus:!-is-with_focus", facts_of(mf).has("return element.with_focus()", exactly=[]) and len(returns_of(mf.node)) == 1, mf.where, "`!x` focuses x")
 
     # fixtures (table kernel alive): a tower where `as` binds looser than `,` must flip obligations
